@@ -54,6 +54,11 @@ type Disk struct {
 	// own goroutine (kjk/lzma) reads the disk: its reads are not ordered
 	// relative to the calling task, so they must not enter the trace.
 	Quiet bool
+	// ScratchTail: on a short read the rest of the caller's buffer is left
+	// holding the bytes of the previous full transfer (legal: the caller must
+	// only look at p[:n])
+	ScratchTail bool
+	lastFull    []byte
 }
 
 func New(r *rt.Run, name string, data []byte) *Disk {
@@ -63,6 +68,7 @@ func New(r *rt.Run, name string, data []byte) *Disk {
 // DrawProfile picks strict vs eof-eager from the tape (0 = strict, like os.File).
 func (d *Disk) DrawProfile() {
 	d.EOFEager = d.run.T.Bool(1, 2, "disk.eofeager")
+	d.ScratchTail = d.run.T.Bool(1, 4, "disk.scratchtail")
 	if d.EOFEager {
 		d.run.NonTrivial = true
 		d.run.Stats["disk.eofeager"]++
@@ -137,8 +143,20 @@ func (d *Disk) ReadAt(p []byte, off int64) (int, error) {
 	}
 	n := copy(p, d.Data[off:])
 	if n < len(p) {
+		if d.ScratchTail && len(d.lastFull) > 0 {
+			// a device that reads through a bounce buffer: beyond the n bytes it
+			// reports, p holds whatever the previous transfer left there ("ReadAt
+			// may use all of p as scratch space during the call")
+			for i := n; i < len(p); i++ {
+				p[i] = d.lastFull[i%len(d.lastFull)]
+			}
+			r.Stats["disk.scratch_tail_left_in_buffer"]++
+		}
 		r.Event("readat", "short+eof", fmt.Sprintf("%s off=%d len=%d n=%d", d.name, off, len(p), n))
 		return n, io.EOF
+	}
+	if d.ScratchTail {
+		d.lastFull = append(d.lastFull[:0], p...)
 	}
 	if d.EOFEager && int(off)+n == len(d.Data) {
 		r.Stats["disk.eager_eof_returned"]++
